@@ -11,11 +11,14 @@ K (correspondence, exact): the contour lists of the real parser (`Skeleton.conto
     enough for the interpreted model, and small random line drawings / noise images (outside the property's domain;
     they reach every clean-up branch incl. the exceptions).
 S (the property on the real code, independent computation): Skeleton -> create_lattice -> generate_mesh(ne) -> Frame on
-    rasterised Voronoi tissues and the shipped TIFF under the 8 symmetries of the square, padding, frame / no frame and
-    mirror_y: exactly one cell per enclosed region of the raster oracle (bijection by point-in-polygon of the region's
+    rasterised Voronoi tissues, rasterised tissues of quadrilateral cells with four-fold junctions (`make_quad_tissue`:
+    every interior junction of the lattice is one minimal junction pixel with four diagonal arms; also rows shifted against
+    each other = three-fold and four-fold junctions mixed, and edge-connected parts of the lattice) and the shipped TIFF
+    under the 8 symmetries of the square, padding, frame / no frame and mirror_y: exactly one cell per enclosed region of the raster oracle (bijection by point-in-polygon of the region's
     innermost pixel), border flag <=> region touches the outside, internal interfaces <=> the generating topology's
-    ridges between two kept cells with an end junction shared by three kept cells (shipped TIFF: the raster oracle's
-    radius-2 junction rule), mesh consistency after each stage (Python transcription; Lean `Mesh.Consistent` on the
+    ridges between two kept cells with an end junction shared by three or more kept cells (shipped TIFF: the raster
+    oracle's radius-2 junction rule; four-fold tissues: regions that meet in the single pixel of an X crossing only have no
+    common boundary line and are taken out of the raster oracle's adjacency before it is compared with the topology), mesh consistency after each stage (Python transcription; Lean `Mesh.Consistent` on the
     dumps), Frame construction succeeds; metamorphic: all of it expressed in the base image's region numbers is the
     same for every variant, plus the number of junction vertices.
     The raster oracle exists twice (scipy.ndimage here, `Raster.analyse` in Lean); both are run on small images and
@@ -312,7 +315,8 @@ def make_tissue(case):
         for x, y in bresenham(P[a][0], P[a][1], P[b][0], P[b][1]):
             img[y, x] = 1
     img, nfill = fill_small_holes(img, 6)
-    img = thin(img)
+    if case.get("thin", True):
+        img = thin(img)
     orc = py_raster(img)
     if orc["n"] != len(keep):
         return None, "enclosed_regions_differ_from_cells"
@@ -336,6 +340,142 @@ def make_tissue(case):
     return {"img": img, "oracle": orc, "n": len(keep), "border": border, "adj": adj, "internal": internal,
             "njunc3": sum(1 for s in jcells.values() if len(s) >= 3), "filled": nfill,
             "mean_region_px": float(np.mean(orc["sizes"]))}, None
+
+
+# ------------------------------------------------------------------------------------------------ four-fold tissues
+X_PIXEL = [[1, 0, 1], [0, 1, 0], [1, 0, 1]]
+
+
+def quad_topo(rng, m, n, jitter, theta, offs):
+    """m rows of quadrilateral cells on a jittered unit lattice turned by theta.  Row r has its cross walls at j + offs[r]
+    (offs[r] in {0, 0.5}; a shifted row has one cell less); the line between two rows carries a node wherever a wall of
+    either row ends: walls of both rows at the same place give a junction of four cells (four arms), a wall of one row only
+    a junction of three cells (a straight line with one arm)"""
+    walls = [[j + offs[r] for j in range(n + 1 - (1 if offs[r] else 0))] for r in range(m)]
+    lines = []
+    for i in range(m + 1):
+        xs = set()
+        if i > 0:
+            xs |= set(walls[i - 1])
+        if i < m:
+            xs |= set(walls[i])
+        lines.append(sorted(xs))
+    node, J = {}, []
+    rot = complex(math.cos(theta), math.sin(theta))
+    for i in range(m + 1):
+        for x in lines[i]:
+            node[(i, round(2 * x))] = len(J)
+            J.append((complex(x, i) + jitter * complex(rng.uniform(-1, 1), rng.uniform(-1, 1))) * rot)
+    cells, sites = [], []
+    for r in range(m):
+        for a, b in zip(walls[r], walls[r][1:]):
+            cyc = ([node[(r, round(2 * x))] for x in lines[r] if a <= x <= b]
+                   + [node[(r + 1, round(2 * x))] for x in reversed(lines[r + 1]) if a <= x <= b])
+            cells.append(cyc)
+            sites.append(sum(J[k] for k in cyc) / len(cyc))
+    return gen.Topo(J, cells, sites)
+
+
+def contact_support(img, lab, n):
+    """for every pair of regions (n + 1 = the outside): the number of skeleton pixels whose 3x3 neighbourhood meets both"""
+    support = collections.Counter()
+    rs, cs = np.nonzero(img)
+    for r, c in zip(rs, cs):
+        near = sorted(x for x in set(np.unique(lab[max(r - 1, 0):r + 2, max(c - 1, 0):c + 2]).tolist()) if 0 < x <= n + 1)
+        for i in range(len(near)):
+            for j in range(i + 1, len(near)):
+                support[(near[i], near[j])] += 1
+    return support
+
+
+def make_quad_tissue(case):
+    """rasterised tissue of quadrilateral cells whose interior junctions are four-fold: a single minimal junction pixel with
+    four diagonal arms (an X crossing); rows may be shifted against each other (three-fold junctions on a straight line) and
+    the tissue may be an edge-connected part of the lattice.  Same result as make_tissue.
+
+    Two regions opposite each other at an X crossing touch in that one pixel only: they have no common boundary *line*.
+    `py_raster` (adjacent = both in the 3x3 neighbourhood of one skeleton pixel) lists them; the oracle returned here is
+    py_raster's with the pairs that are seen together from exactly one skeleton pixel removed (images with a pair seen from 2..4
+    pixels are rejected as ambiguous; genuine ridges are longer than 8 pixels).  `oracle_raw` is py_raster's own answer."""
+    rng = np.random.default_rng(case["seed"])
+    m, n = case["rows"], case["cols"]
+    offs = case.get("offs") or [0] * m
+    topo = quad_topo(rng, m, n, case["jitter"], math.radians(45 + case.get("tilt", 0)), offs)
+    keep = set(range(topo.ncells()))
+    if case.get("keep_n") and case["keep_n"] < len(keep):
+        # grow an edge-connected sub-tissue of the wanted size
+        adj = topo.adjacency()
+        sub = {int(rng.integers(topo.ncells()))}
+        while len(sub) < case["keep_n"]:
+            front = sorted({y for x in sub for y in adj[x] if y not in sub})
+            if not front:
+                break
+            sub.add(front[int(rng.integers(len(front)))])
+        keep = sub
+    if not 4 <= len(keep) <= 60:
+        return None, "cell_count_outside_4_60"
+    S = case["ppc"]
+    P, ridges = geometry(topo, keep, S)
+    if bad_cells(P, ridges):
+        return None, "quad_short_ridge_or_small_angle"
+    arms, outer = collections.Counter(), collections.Counter()
+    for r, cs in ridges.items():
+        for j in r:
+            arms[j] += 1
+            outer[j] += len(cs) == 1
+    if any(k > 2 for k in outer.values()):
+        return None, "quad_cells_touching_in_a_point_across_the_outside"
+    keep = sorted(keep)
+    minx = min(p[0] for p in P.values())
+    miny = min(p[1] for p in P.values())
+    mg = 3
+    P = {j: (p[0] - minx + mg, p[1] - miny + mg) for j, p in P.items()}
+    W = max(p[0] for p in P.values()) + mg + 1
+    H = max(p[1] for p in P.values()) + mg + 1
+    img = np.zeros((H, W), dtype=np.uint8)
+    for r in ridges:
+        a, b = sorted(r)
+        for x, y in bresenham(P[a][0], P[a][1], P[b][0], P[b][1]):
+            img[y, x] = 1
+    img, nfill = fill_small_holes(img, 6)
+    img = thin(img)
+    raw = py_raster(img)
+    if raw["n"] != len(keep):
+        return None, "enclosed_regions_differ_from_cells"
+    lab = raw["lab"]
+    cell_region = {}
+    for c in keep:
+        s = topo.sites[c]
+        x, y = int(round(s.real * S)) - minx + mg, int(round(s.imag * S)) - miny + mg
+        lbl = int(lab[y, x]) if 0 <= y < H and 0 <= x < W else 0
+        if lbl <= 0 or lbl > raw["n"] or lbl in cell_region.values():
+            return None, "site_not_inside_its_region"
+        cell_region[c] = lbl
+    nx = 0
+    for j, k in arms.items():
+        if k == 4:
+            x, y = P[j]
+            if img[y - 1:y + 2, x - 1:x + 2].tolist() != X_PIXEL:
+                return None, "quad_four_armed_junction_is_not_a_single_x_pixel"
+            nx += 1
+    support = contact_support(img, lab, raw["n"])
+    if any(2 <= k <= 4 for k in support.values()):
+        return None, "quad_contact_of_2_to_4_pixels"
+    point = {p for p, k in support.items() if k == 1}
+    orc = dict(raw, adj=[p for p in raw["adj"] if p not in point], internal=[p for p in raw["internal"] if p not in point],
+               border=[b for b in raw["border"] if (b, raw["n"] + 1) not in point])
+    jcells = {}
+    for c in keep:
+        for j in topo.cells[c]:
+            jcells.setdefault(j, set()).add(c)
+    border = sorted({cell_region[c] for r, cs in ridges.items() if len(cs) == 1 for c in cs})
+    pair = lambda cs: tuple(sorted(cell_region[c] for c in cs))
+    adj = sorted({pair(cs) for r, cs in ridges.items() if len(cs) == 2})
+    internal = sorted({pair(cs) for r, cs in ridges.items() if len(cs) == 2 and any(len(jcells[j]) >= 3 for j in r)})
+    return {"img": img, "oracle": orc, "oracle_raw": raw, "n": len(keep), "border": border, "adj": adj, "internal": internal,
+            "njunc3": sum(1 for s in jcells.values() if len(s) >= 3), "filled": nfill,
+            "mean_region_px": float(np.mean(raw["sizes"])),
+            "x_pixels": nx, "njunc4": sum(1 for s in jcells.values() if len(s) >= 4), "point_contacts": len(point)}, None
 
 
 # ------------------------------------------------------------------------------------------------ files
@@ -606,7 +746,10 @@ def make_variants(rng, k, all_syms=False):
 # ------------------------------------------------------------------------------------------------ cases
 def tissue_case(run, case):
     ck = run.ck
-    t, why = make_tissue(case)
+    quad = case["type"] == "quad"
+    if quad:
+        ck.count("quad_cases_generated")
+    t, why = (make_quad_tissue if quad else make_tissue)(case)
     if t is None:
         ck.count("rejected_" + why)
         return
@@ -622,6 +765,17 @@ def tissue_case(run, case):
     ck.count("tissues")
     ck.count("tissue_interior_junctions", t["njunc3"])
     ck.count("tissue_small_holes_filled", t["filled"])
+    if quad:
+        ck.count("quad_tissues")
+        ck.count("quad_tissue_cells", t["n"])
+        ck.count("quad_junctions_of_four_cells_single_x_pixel", t["njunc4"])
+        ck.count("quad_junctions_of_three_cells", t["njunc3"] - t["njunc4"])
+        ck.count("quad_four_armed_x_pixels", t["x_pixels"])
+        ck.count("quad_internal_interfaces_expected", len(t["internal"]))
+        ck.count("quad_point_contacts_removed_from_raster_adjacency", t["point_contacts"])
+        ck.count("quad_tissues_with_shifted_rows" if any(case.get("offs") or []) else "quad_tissues_pure_lattice")
+        if t["n"] < case["rows"] * case["cols"] - sum(1 for o in (case.get("offs") or []) if o):
+            ck.count("quad_tissues_part_of_the_lattice")
     expect = {"border": t["border"], "internal": t["internal"], "njunc3": t["njunc3"]}
     results = []
     npx = int(t["img"].sum())
@@ -634,7 +788,7 @@ def tissue_case(run, case):
         metamorphic(ck, case, results)
     if case.get("lean_raster"):
         run.reqs.append({"op": "c15_raster", "img": t["img"].astype(int).tolist(), "rad": 2})
-        run.pending.append(("raster", case, orc))
+        run.pending.append(("raster", case, t.get("oracle_raw", orc)))     # Lean's twin is py_raster itself
     ck.case({k: v for k, v in case.items() if k != "variants"} | {"nvariants": len(case["variants"])},
             nontrivial=t["njunc3"] >= 1 and len(results) >= 1,
             sample=({"case": {k: v for k, v in case.items() if k != "variants"}, "image": list(t["img"].shape), "cells": t["n"],
@@ -743,7 +897,44 @@ def gen_cases(ck):
     for i in range(120 if quick else 900):
         cases.append({"type": "image", "seed": int(rng.integers(1 << 30)), "kind": "noise" if i % 3 == 0 else "lines",
                       "mirror": bool(i % 2), "lean_raster": i % 30 == 0})
+    # tissues of quadrilateral cells: four-fold interior junctions (drawn last so that the cases above are those of earlier runs)
+    cases += quad_cases(rng, quick)
     return cases
+
+
+def quad_cases(rng, quick):
+    """quick: 5 small ones (all through the model); thorough: 8 small ones through the model and 10 larger ones.
+    Of every four: two full lattices, one with shifted rows (three-fold and four-fold junctions), one part of a lattice"""
+    out = []
+    n_small, n_big = (5, 0) if quick else (8, 10)
+    for i in range(n_small + n_big):
+        small = i < n_small
+        kind = ("full", "shifted", "full", "part")[i % 4]
+        if small:
+            m, n = (2, 2) if i == 0 else (int(rng.integers(2, 4)), int(rng.integers(2, 5)))
+            ppc = int(rng.integers(35, 46))
+        else:
+            m, n = int(rng.integers(3, 8)), int(rng.integers(3, 8))
+            ppc = int(rng.integers(35, 91 if m * n <= 25 else 56))
+        case = {"type": "quad", "seed": int(rng.integers(1 << 30)), "rows": m, "cols": n, "ppc": ppc,
+                "jitter": round(float(rng.uniform(0.02, 0.14)), 3), "tilt": round(float(rng.uniform(-9, 9)), 2)}
+        if kind == "shifted":
+            m = case["rows"] = max(m, 3)
+            case["cols"] = max(n, 3)
+            offs = [0.5 * int(rng.integers(2)) for _ in range(m)]
+            j = int(rng.integers(m - 1))
+            offs[j + 1] = offs[j]                      # at least one line of four-fold junctions
+            k = (j + 2) % m if m > 2 else 0
+            offs[k] = 0.5 - offs[j] if k not in (j, j + 1) else offs[k]
+            case["offs"] = offs
+        if kind == "part":
+            m = case["rows"] = max(m, 3)
+            n = case["cols"] = max(n, 3)
+            case["keep_n"] = int(rng.integers(max(4, (m * n) // 2), m * n))
+        case.update(variants=make_variants(rng, (4 if quick else 8) if small else 12, all_syms=not small),
+                    k=small, k_variants=2 if i < 2 else 1, lean_raster=(i == 0))
+        out.append(case)
+    return out
 
 
 # ------------------------------------------------------------------------------------------------ comparison
@@ -804,7 +995,8 @@ def run(ck):
         "with CPython's reference-count and list-mutation semantics) equals the real create_lattice on OpenCV's actual contour "
         "lists (exact comparison of all three dictionaries, flags and exception kinds); that the whole pipeline Skeleton -> "
         "create_lattice -> generate_mesh -> Frame yields one cell per enclosed region, the right border flags and internal "
-        "interfaces (against a pixel-level raster oracle and the generating Voronoi topology), consistent meshes at every stage, "
+        "interfaces (against a pixel-level raster oracle and the generating topology: Voronoi tissues with three-fold junctions and "
+        "lattices of quadrilateral cells with four-fold junctions), consistent meshes at every stage, "
         "and the same answer under the 8 symmetries of the square, padding, frame and mirror_y. Trusted: cv2.findContours "
         "(that border following yields one hole contour per enclosed region is a digital-topology statement about OpenCV and "
         "is not proved), PIL, scipy.ndimage (the raster oracle is cross-checked against its Lean twin on small images), the "
@@ -812,7 +1004,12 @@ def run(ck):
     ck.rule = ("rasterised Voronoi tissues (Lloyd-relaxed random sites; cells at a ridge <= 8 px or a junction angle <= 25 deg are "
                "dropped, largest edge-connected remainder of 4..60 cells; 35..90 pixels per cell (sqrt of mean cell area); Bresenham "
                "ridges, holes <= 6 px filled, thinned until no (8,4)-simple pixel is left; rejected unless the enclosed regions are the "
-               "cells and the raster oracle agrees with the generating topology) and tests/data/test_nonzero.tif, each under a random "
+               "cells and the raster oracle agrees with the generating topology); tissues of quadrilateral cells (type quad: jittered "
+               "lattice of 2..7 x 2..7 cells, jitter 0.02..0.14 of the cell side, turned by 45 +- 9 degrees, 35..90 pixels per cell side, "
+               "optionally rows shifted by half a cell or an edge-connected part of the lattice; same rasteriser; rejected unless every "
+               "four-armed junction is one pixel with four diagonal arms, no two regions are seen together from 2..4 skeleton pixels, "
+               "and the raster oracle without single-pixel contacts agrees with the generating topology); "
+               "and tests/data/test_nonzero.tif, each under a random "
                "choice (thorough: all) of the 8 symmetries of the square, paddings 0..4 px per side, with/without the one-pixel white "
                "frame, mirror_y on/off, ne in 3..9; plus small random line drawings / noise images for the correspondence only. "
                "Non-trivial = a tissue with at least one interior junction on which at least one variant ran; distinct = generator parameters")
@@ -836,7 +1033,7 @@ def run(ck):
         else:
             cases = ck.corpus_cases() + gen_cases(ck)
         for case in cases:
-            fn = {"tissue": tissue_case, "shipped": shipped_case, "image": image_case}[case["type"]]
+            fn = {"tissue": tissue_case, "quad": tissue_case, "shipped": shipped_case, "image": image_case}[case["type"]]
             ck.guard(case, fn, run_, case)
         resps = ck.driver(run_.reqs)
     finally:
